@@ -1,0 +1,110 @@
+//go:build verif
+
+package db
+
+// Contracts for property C07 (sequence allocation). Comment-only; read by /verif/engine.
+
+//@ props C07
+
+// Representation invariant of the allocator: the numbers (last, max] are owned by this node:
+// reserved from the shared counter and not yet published as unused.
+//@ pred allocInv(s *sequenceAllocator) bool
+//@   is s.last <= s.max && 1 <= s.sequenceBatchSize && s.sequenceBatchSize <= 10 &&
+//@      (forall x uint64 :: {x in reservedAll} {x in published} s.last < x && x <= s.max ==> (x in reservedAll) && !(x in published)) &&
+//@      (forall x uint64 :: {x in published} x in published ==> x in reservedAll) &&
+//@      (s.max == 0 || (s.max in reservedAll)) &&
+//@      (forall x uint64 :: {x in reservedAll} x in reservedAll ==> x <= syncCounter)
+
+//@ extern func github.com/couchbase/sync_gateway/base.MetadataKeys.UnusedSeqRangeKey
+//@   inert
+//@   ensures isRangeKey(result) && rangeKeyFrom(result) == fromSeq && rangeKeyTo(result) == toSeq
+
+//@ func sequenceAllocator._incrementSequence
+//@   requires s != nil
+//@   modifies reservedAll, syncCounter
+//@   ensures[counter]  isNilErr(result1) && numToReserve > 0 ==> mi(result0) >= mi(old(syncCounter)) + mi(numToReserve) && syncCounter == result0
+//@   ensures[counter2] !(isNilErr(result1) && numToReserve > 0) ==> syncCounter >= old(syncCounter)
+//@   ensures[fresh]    isNilErr(result1) && numToReserve > 0 ==> result0 >= numToReserve && disjoint(old(reservedAll), interval(result0 - numToReserve + 1, result0))
+//@   ensures[monotone] isNilErr(result1) && numToReserve > 0 ==> (forall x uint64 :: {x in old(reservedAll)} x in old(reservedAll) ==> x <= result0 - numToReserve)
+//@   ensures[reserved] isNilErr(result1) && numToReserve > 0 ==> reservedAll == union(old(reservedAll), interval(result0 - numToReserve + 1, result0))
+//@   ensures[noop]     !(isNilErr(result1) && numToReserve > 0) ==> reservedAll == old(reservedAll)
+
+// Rollback repair: storage-level retry loop; trusted to end with a fresh exclusive batch or an error.
+//@ func sequenceAllocator._fixSyncSeqRollback
+//@   trusted
+//@   modifies reservedAll, syncCounter
+//@   ensures syncCounter >= old(syncCounter) && (forall x uint64 :: {x in reservedAll} x in reservedAll ==> x <= syncCounter)
+//@   ensures isNilErr(err) ==> allocatedToSeq >= s.sequenceBatchSize && disjoint(old(reservedAll), interval(allocatedToSeq - s.sequenceBatchSize + 1, allocatedToSeq))
+//@   ensures isNilErr(err) ==> subset(interval(allocatedToSeq - s.sequenceBatchSize + 1, allocatedToSeq), reservedAll) && subset(old(reservedAll), reservedAll)
+//@   ensures !isNilErr(err) ==> subset(old(reservedAll), reservedAll)
+
+// Reads the shared counter (other nodes may have advanced it since we last looked).
+//@ func sequenceAllocator.getSequence
+//@   trusted
+//@   modifies syncCounter
+//@   ensures syncCounter >= old(syncCounter) && (isNilErr(err) ==> max == syncCounter)
+
+//@ func sequenceAllocator.releaseSequenceRange
+//@   requires s != nil
+//@   requires[reserved-only] forall x uint64 :: {x in reservedAll} fromSequence <= x && x <= toSequence ==> x in reservedAll
+//@   modifies published, publishFailed
+//@   ensures[nothing]   (toSequence == 0 || toSequence < fromSequence) ==> result0 == 0 && isNilErr(result1) && published == old(published) && publishFailed == old(publishFailed)
+//@   ensures[count]     !(toSequence == 0 || toSequence < fromSequence) && isNilErr(result1) ==> result0 == toSequence - fromSequence + 1
+//@   ensures[published] !(toSequence == 0 || toSequence < fromSequence) && isNilErr(result1) ==> published == union(old(published), interval(fromSequence, toSequence)) && publishFailed == old(publishFailed)
+//@   ensures[failed]    !isNilErr(result1) ==> result0 == 0 && published == old(published) && publishFailed == union(old(publishFailed), interval(fromSequence, toSequence))
+
+//@ func sequenceAllocator._reserveSequenceBatch
+//@   requires s != nil && allocInv(s) && s.last >= s.max
+//@   modifies reservedAll, syncCounter, s.max, s.last, s.sequenceBatchSize, s.lastSequenceReserveTime
+//@   ensures[inv]     isNilErr(result) ==> allocInv(s) && s.max - s.last == s.sequenceBatchSize
+//@   ensures[advance] isNilErr(result) ==> s.last >= old(s.max) && s.last >= old(syncCounter)
+//@   ensures[counter] syncCounter >= old(syncCounter)
+//@   ensures[fresh]   isNilErr(result) ==> (forall x uint64 :: {x in reservedAll} s.last < x && x <= s.max ==> !(x in old(reservedAll)))
+//@   ensures[exact]   isNilErr(result) ==> (forall x uint64 :: {x in reservedAll} (x in reservedAll) && !(x in old(reservedAll)) ==> s.last < x && x <= s.max)
+//@   ensures[exact-err] !isNilErr(result) ==> reservedAll == old(reservedAll)
+//@   ensures[err]     !isNilErr(result) ==> s.last == old(s.last) && s.max == old(s.max) && 1 <= s.sequenceBatchSize && s.sequenceBatchSize <= 10
+//@   ensures[pub]     published == old(published) && publishFailed == old(publishFailed) && subset(old(reservedAll), reservedAll)
+
+//@ func sequenceAllocator._nextSequence
+//@   requires s != nil && allocInv(s)
+//@   modifies reservedAll, syncCounter, s.max, s.last, s.sequenceBatchSize, s.lastSequenceReserveTime
+//@   ensures[increasing] isNilErr(err) ==> sequence > old(s.last)
+//@   ensures[above-counter] isNilErr(err) && old(s.last) >= old(s.max) ==> sequence > old(syncCounter)
+//@   ensures[counter]  syncCounter >= old(syncCounter)
+//@   ensures[inv]      allocInv(s)
+//@   ensures[handed]   isNilErr(err) ==> sequence == s.last && sequence > 0
+//@   ensures[owned]    isNilErr(err) ==> (old(s.last) < sequence && sequence <= old(s.max)) || !(sequence in old(reservedAll))
+//@   ensures[nolose]   isNilErr(err) ==> (forall x uint64 :: old(s.last) < x && x <= old(s.max) ==> x == sequence || (s.last < x && x <= s.max))
+//@   ensures[reserved] isNilErr(err) ==> (sequence in reservedAll) && !(sequence in published)
+//@   ensures[err]      !isNilErr(err) ==> s.last == old(s.last) && s.max == old(s.max) && reservedAll == old(reservedAll)
+//@   ensures[exact]    isNilErr(err) ==> (forall x uint64 :: {x in reservedAll} (x in reservedAll) && !(x in old(reservedAll)) ==> x == sequence || (s.last < x && x <= s.max))
+//@   ensures[pub]      published == old(published) && publishFailed == old(publishFailed) && subset(old(reservedAll), reservedAll)
+
+//@ func sequenceAllocator._releaseCurrentBatch
+//@   requires s != nil && allocInv(s)
+//@   modifies published, publishFailed, s.last
+//@   ensures[inv]      allocInv(s)
+//@   ensures[released] isNilErr(err) ==> s.last == s.max && s.max == old(s.max) && (forall x uint64 :: {x in published} old(s.last) < x && x <= old(s.max) ==> x in published)
+//@   ensures[count]    isNilErr(err) ==> numReleased == old(s.max) - old(s.last)
+//@   ensures[err]      !isNilErr(err) ==> s.last == old(s.last) && s.max == old(s.max) && numReleased == 0
+//@   ensures[failed]   !isNilErr(err) ==> (forall x uint64 :: {x in publishFailed} old(s.last) < x && x <= old(s.max) ==> x in publishFailed)
+//@   ensures[mono]     subset(old(published), published) && subset(old(publishFailed), publishFailed)
+
+// Every number owned before the call is afterwards either still owned, or published as unused,
+// or its publication was attempted and failed (the documented fall-back to skipped-sequence handling).
+//@ func sequenceAllocator.releaseUnusedSequences
+//@   requires s != nil && allocInv(s)
+//@   modifies published, publishFailed, s.last, s.sequenceBatchSize
+//@   ensures[inv]       allocInv(s)
+//@   ensures[drained]   s.last == s.max && s.max == old(s.max)
+//@   ensures[accounted] forall x uint64 :: {x in published} {x in publishFailed} old(s.last) < x && x <= old(s.max) ==> (x in published) || (x in publishFailed)
+
+//@ func sequenceAllocator.nextSequenceGreaterThan
+//@   requires s != nil && allocInv(s) && existingSequence < 18446744073709551615
+//@   modifies syncCounter, reservedAll, published, publishFailed, s.max, s.last, s.sequenceBatchSize, s.lastSequenceReserveTime
+//@   ensures[inv]         allocInv(s)
+//@   ensures[above-floor] isNilErr(err) ==> sequence > existingSequence
+//@   ensures[handed]      isNilErr(err) ==> sequence <= s.last && !(sequence in published) && (sequence in reservedAll)
+//@   ensures[owned]       isNilErr(err) ==> (old(s.last) < sequence && sequence <= old(s.max)) || !(sequence in old(reservedAll))
+//@   ensures[accounted]   isNilErr(err) ==> (forall x uint64 :: {x in published} {x in publishFailed} old(s.last) < x && x <= old(s.max) ==> x == sequence || (s.last < x && x <= s.max) || (x in published) || (x in publishFailed))
+//@   ensures[newly]       isNilErr(err) ==> (forall x uint64 :: {x in reservedAll} {x in published} {x in publishFailed} (x in reservedAll) && !(x in old(reservedAll)) ==> x == sequence || (s.last < x && x <= s.max) || (x in published) || (x in publishFailed))
